@@ -34,7 +34,7 @@ use generic_array::GenericArray;
 use rand::{SeedableRng, rngs::StdRng};
 use serde_json::{Value, json};
 
-use super::{hybrid::Query as HybridQuery, reshard_tag::reshard_aad};
+use super::hybrid::Query as HybridQuery;
 use crate::{
     error::{BoxError, Error},
     ff::{
